@@ -61,6 +61,9 @@ fn call(src: &str, d: &Value, st: &mut Stats) {
         format!("not_null({})", src),
         format!("[@][*].{}", src),
         format!("{{r: {}}}.r", src),
+        // evaluated against a null current node (a null left-hand side must not skip the call)
+        format!("`null` | {}", src),
+        format!("no_such_key_.{}", src),
     ] {
         nested(&n, d, st);
     }
